@@ -47,9 +47,11 @@ use rkyv::{AlignedVec, Archive, Deserialize, Serialize};
 // ------------------------------------------------------------------ message types
 
 #[derive(Archive, Serialize, Deserialize, Clone, PartialEq, Debug)]
+#[archive_attr(derive(Debug))]
 pub struct Empty;
 
 #[derive(Archive, Serialize, Deserialize, Clone, PartialEq, Debug)]
+#[archive_attr(derive(Debug))]
 pub struct Fixed {
     a: u32,
     b: u64,
@@ -59,11 +61,13 @@ pub struct Fixed {
 }
 
 #[derive(Archive, Serialize, Deserialize, Clone, PartialEq, Debug)]
+#[archive_attr(derive(Debug))]
 pub struct Text {
     s: String,
 }
 
 #[derive(Archive, Serialize, Deserialize, Clone, PartialEq, Debug)]
+#[archive_attr(derive(Debug))]
 pub struct Nested {
     id: u64,
     rows: Vec<Vec<u32>>,
@@ -72,6 +76,7 @@ pub struct Nested {
 }
 
 #[derive(Archive, Serialize, Deserialize, Clone, PartialEq, Debug)]
+#[archive_attr(derive(Debug))]
 pub struct Blob {
     data: Vec<u8>,
 }
@@ -297,7 +302,12 @@ macro_rules! base_ops {
                         Ok(view) => match view.deserialize_view() {
                             Ok(back) => {
                                 let back: $t = back;
+                                // a copy of the view (what a handler moves into a task) shows the same value
+                                let copy = view.clone();
+                                let copy_same = copy.as_bytes() == view.as_bytes()
+                                    && copy.deserialize_view().map(|c: $t| c == v).unwrap_or(false);
                                 back == v
+                                    && copy_same
                                     && to_view_bytes(&back).map(|b| b.to_vec() == frame).unwrap_or(false)
                             },
                             Err(_) => false,
